@@ -100,7 +100,8 @@ OptToks(o) ==
                  ELSE <<TkStr(o.name), TkP("="), TkStr(TokText(o, 1))>>)
 InstToks(o, j) ==
   IF j > Len(o.vals) THEN <<>>
-  ELSE <<TkStr(o.name)>> \o (IF "TITLE" \in o.flags THEN <<TkStr(o.vals[j].title)>> ELSE <<>>)
+  ELSE <<TkStr(o.name)>> \o (IF "TITLE" \in o.flags
+                                THEN <<TkStr(IF o.vals[j].title = Null THEN "" ELSE o.vals[j].title)>> ELSE <<>>)
        \o <<TkP("{")>> \o SecToks(o.vals[j]) \o <<TkP("}")>> \o InstToks(o, j + 1)
 OptsToks(opts, i) == IF i > Len(opts) THEN <<>> ELSE OptToks(opts[i]) \o OptsToks(opts, i + 1)
 SecToks(sec) == OptsToks(sec.opts, 1)
